@@ -144,6 +144,7 @@ def main():
 
     deadline = a.deadline if a.deadline is not None else chk.get("deadline", {}).get(tier, 900 if tier == "quick" else 3600)
     runs = chk["runs"](tier, seed) if callable(chk["runs"]) else chk["runs"]
+    t_end = time.time() + deadline          # absolute: slices that start late (more slices than cores) do not get a fresh budget
     jobs = []
     for r in runs:
         if r["driver"] in build_failures:
@@ -152,7 +153,7 @@ def main():
         for s in range(min(ns, r.get("slice_subset", ns))):
             outp = os.path.join(bdir, "%s.%s.%d.json" % (r["driver"], r.get("tag", "r"), s))
             cmd = [os.path.join(bdir, r["driver"])] + r["args"] + ["--tier", tier, "--slice", str(s), "--nslices", str(ns),
-                                                                  "--out", outp, "--deadline", str(deadline), "--seed", str(seed)]
+                                                                  "--out", outp, "--deadline-epoch", str(int(t_end)), "--seed", str(seed)]
             jobs.append((r, cmd, outp))
     hard_timeout = deadline + 600
     env_workers = int(os.environ.get("VERIF_JOBS", NCPU))
